@@ -459,8 +459,7 @@ def in_defect_region(op, st, kind, depth):
         descs = op[1]
         mr = max([len(c03.shape_of(d[1])) for d in descs if d[0] in ("mask", "npmask")] + [0])
         if k == "index":
-            plain = mr == 1 and len(descs) == 1 and depth == 1
-            f["mask_on_stack"] = bool(mr >= 1 and kind == "stack" and not plain)
+            pass      # reads through boolean masks are right since the C08 fixes 839008a / b79ab80 / e06487a / 94eb4cb
         else:
             # a write promotes a shared entry to a stack of full depth first
             plain = mr == 1 and len(descs) == 1 and st.pos.dim() == 1
@@ -469,7 +468,7 @@ def in_defect_region(op, st, kind, depth):
         descs = op[1]
         f["write_index_none"] = any(d[0] == "non" for d in descs)
         f["write_index_empty_tuple"] = len(expand_ellipsis(descs, st.pos.dim())) == 0
-        f["write_index_tensor_rank_ge_2"] = any(d[0] in ("np", "ten") and len(c03.shape_of(d[1])) >= 2 for d in descs)
+        # (writes through an integer tensor of rank >= 2 were finding C16-h: fixed by e0579fb)
     if k == "cat":
         cur = call(lambda: rep(st.td.get("s"), st.pl))
         cid = cur[1][1] if cur[0] == "ok" and cur[1][0] == "S" else None
@@ -693,10 +692,13 @@ SHAPE_OPS = ("view", "reshape", "permute", "transpose", "squeeze", "unsqueeze", 
              "repeat_interleave", "split", "chunk", "unbind", "gather", "masked_select")
 
 
+IDENT_POOL = POOL[:6] + [["ident", 0], ["ident", 1], ["ident", 2]]
+
+
 class State:
-    def __init__(self, rng, pseed):
+    def __init__(self, rng, pseed, pool=None):
         import random
-        self.pl = Payloads(random.Random(pseed))
+        self.pl = Payloads(random.Random(pseed), pool)
         self.ids = Ids()
         self.td = None
         self.pos = None
@@ -1039,7 +1041,7 @@ def run_history(case, rng=None, trace=None, probe=None):
     """execute (and, when [rng] is given and the case has no ops yet, generate) a history.
     Returns failures: list of dict(label, detail, sig, step).  [trace] collects (step, op, rep_before, rep_after, info)."""
     import random
-    st = State(None, case["pseed"])
+    st = State(None, case["pseed"], IDENT_POOL if case.get("pool") == "ident" else None)
     gen = rng is not None and not case.get("frozen")
     fails = []
     try:
@@ -1277,6 +1279,10 @@ STREAMS = {
     "raw": (None, False, [1, 1, 2, 2, 3]),
     "promote": ({"setitem", "set_at", "setitem_same", "index", "unbind", "tostack", "clone", "stack"}, True, [3, 4, 5, 6, 8]),
     "reads": ({"index", "unbind", "clone", "tostack", "pickle", "split", "chunk", "permute", "unsqueeze", "stack", "lazy_stack"}, True, [1, 2, 3]),
+    # arbitrary objects with IDENTITY equality (two copies are different objects): oracle only, the model's payload classes
+    # are equality classes
+    "ident": ({"index", "unbind", "clone", "tostack", "pickle", "split", "chunk", "permute", "unsqueeze", "stack", "lazy_stack",
+               "setitem", "set_at", "update", "repeat", "to_dict"}, True, [1, 2, 3, 4]),
 }
 
 
@@ -1289,6 +1295,8 @@ def run_stream(name, n, seed):
     for _ in range(n):
         case = new_case(rng, allow=allow, nops=rng.choice(nopsc), avoid=avoid)
         case["stream"] = name
+        if name == "ident":
+            case["pool"] = "ident"
         tr, pr = [], []
         fs = run_history(case, rng, trace=tr, probe=pr)
         if pr:
@@ -1331,7 +1339,8 @@ def main(R):
     R.step_prove()
     ok = R.step_driver()
     q = R.quick
-    plan = [("clean", 1100 if q else 30000), ("raw", 900 if q else 24000), ("promote", 500 if q else 12000), ("reads", 700 if q else 16000)]
+    plan = [("clean", 1100 if q else 30000), ("raw", 900 if q else 24000), ("promote", 500 if q else 12000), ("reads", 700 if q else 16000),
+            ("ident", 300 if q else 6000)]
     jobs = []
     for name, n in plan:
         shards = 1 if q else 16
@@ -1360,9 +1369,11 @@ def main(R):
             R.count("stream:" + name)
             all_traces.append((case, tr))
         for case, f in fails:
-            c = {k: case[k] for k in ("pseed", "bs", "assign", "plan", "ops", "stream")}
+            c = {k: case[k] for k in ("pseed", "bs", "assign", "plan", "ops", "stream", "pool") if k in case}
             c["ops"] = c["ops"][: f["step"] + 1] if f["step"] >= 0 else []
             R.oracle_fail(f["label"], c, f["detail"], f["sig"])
+    R.extra["stated_not_proved"] = ["C16_data_full_statement (refuted: C16_data_refuted, finding C16-a)",
+                                    "C16_cat_full_statement (refuted: C16_cat_refuted, finding C16-d)"]
     if ok:
         check_model(R, all_traces)
     if R.extra.get("spec_mismatch"):
@@ -1483,6 +1494,8 @@ def check_model(R, all_traces):
     items = []
     seen_spec = set()
     for case, tr in all_traces:
+        if case.get("pool") == "ident":
+            continue
         for t in tr:
             if "probe_lines" in t:
                 for (label, line, want) in t["probe_lines"]:
@@ -1552,7 +1565,8 @@ def replay(body):
     case["frozen"] = True
     case.setdefault("allow", sorted(ALL_OPS))
     print("case:", json.dumps({k: case[k] for k in ("bs", "assign", "plan")}))
-    print("payload pool:", {i: POOL[i] for i in sorted(set(case["assign"] or []))})
+    pool = IDENT_POOL if case.get("pool") == "ident" else POOL
+    print("payload pool:", {i: pool[i] for i in sorted(set(case["assign"] or []))})
     tr = []
     fails = run_history(case, trace=tr)
     for t in tr:
@@ -1560,4 +1574,15 @@ def replay(body):
     print("oracle (object-array proxy):", "no failure" if not fails else "")
     for f in fails:
         print("  FAIL", f["label"], json.dumps(f["detail"])[:600], "\n       signature", json.dumps(f["sig"]))
+    if case.get("pool") != "ident":
+        from .core import build_driver, run_model
+        ok, _ = build_driver("C16")
+        if ok:
+            for t in tr:
+                items = model_lines_for(t, case) if "probe_lines" not in t else []
+                if not items:
+                    continue
+                res = run_model("C16", [it[1] for it in items])
+                for (label, line, want, kind), m in zip(items, res):
+                    print(f"model step {t['step']} {label}: model {json.dumps(m)[:300]}\n      implementation/proxy {json.dumps(want)[:300]}")
     return 0
